@@ -268,19 +268,21 @@ def place (l : List Kind) (k : Kind) (index : Nat) (inOrder : Bool) : Place :=
     if inOrder then
       if hasKind [.ns] l then .at (afterLastOf [.ns] l)                      -- :741-746
       else
-        let start := afterLastOf Gen.nsStartAfter l                          -- :749-752
-        match firstIdx Gen.nsFirstBefore (l.drop start) with                 -- :753-764
+        let start := afterLastOf Gen.nsStartAfter l
+        match firstIdx Gen.nsFirstBefore (l.drop start) with
         | some j => .at (start + j)
-        | none => .at index
+        | none => .at l.length                                               -- `index = len(self._cssRules)`
     else if hasKind Gen.nsAfter (l.drop index) then .reject .hierarchy       -- :767-774
     else if hasKind Gen.nsBefore (l.take index) then .reject .hierarchy      -- :776-790
     else .at index
   else if k = .vars then                                                     -- :806
     if inOrder then
-      if hasKind [.vars] l then .at (afterLastOf [.vars] l)                  -- :808-813
-      else match firstIdx Gen.varsFirstBefore l with                         -- :816-826
-        | some j => .at j
-        | none => .at index
+      if hasKind [.vars] l then .at (afterLastOf [.vars] l)
+      else
+        let start := afterLastOf Gen.varsStartAfter l                        -- after @charset, @import, @namespace
+        match firstIdx Gen.varsFirstBefore (l.drop start) with
+        | some j => .at (start + j)
+        | none => .at l.length
     else if hasKind Gen.varsAfter (l.drop index) then .reject .hierarchy     -- :829-837
     else if hasKind Gen.varsBefore (l.take index) then .reject .hierarchy    -- :839-852
     else .at index
@@ -305,8 +307,8 @@ def insertCore (st : St) (dict : Dict) (r : Rule) (index : Nat) (inOrder clean t
   match place (kindsOf st.rules) r.kind index inOrder with
   | .reject e => ({ st with gone := st.gone ++ (if track then [r] else []) }, logError st.raising e)
   | .mergeCharset =>
-    -- the encoding is copied, the rule object itself is dropped — but still gets `_parentStyleSheet = self` (:881)
-    ({ st with rules := setEnc0 r.enc st.rules, gone := st.gone ++ (if track then [r.adopt] else []) }, .ok 0)
+    -- the encoding is copied, the rule object itself is not part of the sheet: `return index` before the post settings
+    ({ st with rules := setEnc0 r.enc st.rules, gone := st.gone ++ (if track then [r] else []) }, .ok 0)
   | .at i =>
     if r.kind = .ns then
       if dict.hasKey r.pre && dict.get? r.pre == some r.uri then             -- :792-795 doublette: not inserted
@@ -323,7 +325,9 @@ def insertCore (st : St) (dict : Dict) (r : Rule) (index : Nat) (inOrder clean t
             ({ st with gone := st.gone ++ (if track then [r] else []) }, .err e)
           | none =>
             if c.1.any (fun x => x.id = r.id) then                           -- :801 `rule not in self._cssRules`
-              ({ st with rules := adoptId r.id c.1, gone := st.gone ++ removed }, .ok i)   -- :881, :887
+              -- the index is looked up again: the clean-up may have removed rules in front of the new one
+              ({ st with rules := adoptId r.id c.1, gone := st.gone ++ removed },
+                .ok (c.1.findIdx (fun x => x.id = r.id)))
             else ({ st with rules := c.1, gone := st.gone ++ removed }, .none)
         else ({ st with rules := pyInsert st.rules i r.adopt }, .ok i)
     else ({ st with rules := pyInsert st.rules i r.adopt }, .ok i)
@@ -335,8 +339,8 @@ def usesDeclared (d : Dict) (used : List Cps) : Bool := used.all (fun u => d.has
 
 /-- does `container.insertRule` refuse this kind (the isinstance chains) -/
 def containerRejects (ck k : Kind) : Bool :=
-  if ck = .media then Gen.mediaRejects.contains k
-  else if ck = .page then Gen.pageRejects.contains k
+  if ck = .media then Gen.mediaRejects k
+  else if ck = .page then Gen.pageRejects k
   else true
 
 /-- `container.insertRule(rule, index)` / `add(rule)` on the container object `c` (`cssrule.py:235-279`).
@@ -411,13 +415,13 @@ def parseMediaKids (raising : Bool) (d : Dict) (cid : Nat) (n : Nat) : List Spec
 end
 
 /-- `container.cssText = text` for the rule-list part: the children the text denotes replace the old ones,
-which keep their `_parentRule` (`self.cssRules = CSSRuleList()`, `cssmediarule.py:224`, `csspagerule.py:354`) -/
+which are detached (`_parentRule = None`) once the text is accepted -/
 def cSetText (raising : Bool) (d : Dict) (next : Nat) (c : Rule) (kids : List Spec) : Rule × List Rule × Nat × Outcome :=
   let res := if c.kind = .media then parseMediaKids raising d c.id next kids
              else parsePageKids raising c.id next kids
   match res with
   | .error e => (c, [], next, .err e)
-  | .ok ks => ({ c with kids := ks.1 }, c.kids, ks.2, .none)
+  | .ok ks => ({ c with kids := ks.1 }, c.kids.map (fun k => { k with prule := none }), ks.2, .none)
 
 /-- the rule object at `path` (indexes from the sheet's list downwards) -/
 def atPath (rules : List Rule) : List Nat → Option Rule
@@ -558,6 +562,29 @@ def insertRule (st : St) (s : Spec) (index : Option Int) (inOrder viaStr track :
         ({ st1 with gone := st1.gone ++ held }, logError st1.raising .syntaxErr)
       else insertCore st1 d c.1 idx inOrder true track
 
+/-- `insertRule(CSSRuleList, index)` was refused: the list and all parent pointers are put back
+(`cssstylesheet.py`, `cssrule.py`: "insert all rules or none"); the caller still holds the rule objects of the list -/
+def resetList (st0 : St) (specs0 : List Spec) (next : Nat) : St :=
+  let c := Spec.instList none next specs0
+  { st0 with gone := st0.gone ++ c.1, next := c.2 }
+
+/-- the loop `for i, r in enumerate(rule): self.insertRule(r, index + i)` of the CSSRuleList branch: every rule goes
+through the whole of `insertRule` (not ordered, whatever the caller said); a DOM exception — a refusal in raise mode,
+IndexSizeErr after a skipped rule in log-only mode, the clean-up's NoModificationAllowedErr — undoes everything -/
+def insertListLoop (st0 : St) (specs0 : List Spec) (idx : Nat) : St → Nat → List Spec → St × Outcome
+  | cur, _, [] => (cur, .ok idx)
+  | cur, i, s :: ss =>
+    let r := insertRule cur s (some ((idx + i : Nat) : Int)) false false true
+    match r.2 with
+    | .err e => (resetList st0 specs0 r.1.next, .err e)
+    | _ => insertListLoop st0 specs0 idx r.1 (i + 1) ss
+
+/-- `sheet.insertRule(CSSRuleList([...]), index)` -/
+def insertList (st : St) (specs : List Spec) (index : Option Int) : St × Outcome :=
+  match idxOf index st.rules.length with
+  | none => (resetList st specs st.next, .err .indexSize)
+  | some idx => insertListLoop st specs idx st 0 specs
+
 /-! ## `encoding` setter -/
 
 /-- `sheet.encoding = e`; `e = []` stands for `None`/`''`; `valid`: `e` is a single IDENT token naming a codec
@@ -624,6 +651,31 @@ def nInsert (st : St) (path : List Nat) (s : Spec) (index : Option Int) (viaStr 
       let res := cInsert st.raising c i.1 index false
       ({ st with rules := setPath st.rules res.1 path, gone := st.gone ++ res.2.1, next := i.2 }, res.2.2)
 
+/-- the same loop for a container: every rule goes through the container's `insertRule` (index check, kind check) -/
+def cInsertListLoop (raising : Bool) (c0 : Rule) (idx : Nat) : Rule → Nat → Nat → List Rule → List Spec →
+    Rule × List Rule × Nat × Outcome
+  | c, _, next, dropped, [] => (c, dropped, next, .none)
+  | c, i, next, dropped, s :: ss =>
+    let r := Spec.inst none next s
+    let res := cInsert raising c r.1 (some ((idx + i : Nat) : Int)) false
+    match res.2.2 with
+    | .err e => (c0, [], r.2, .err e)
+    | _ => cInsertListLoop raising c0 idx res.1 (i + 1) r.2 (dropped ++ res.2.1) ss
+
+/-- `container.insertRule(CSSRuleList([...]), index)` -/
+def nInsertList (st : St) (path : List Nat) (specs : List Spec) (index : Option Int) : St × Outcome :=
+  match atPath st.rules path with
+  | none => (st, .badOp)
+  | some c =>
+    if !isContainer c then (st, .badOp) else
+    match idxOf index c.kids.length with
+    | none => (resetList st specs st.next, .err .indexSize)
+    | some idx =>
+      let res := cInsertListLoop st.raising c idx c 0 st.next [] specs
+      match res.2.2.2 with
+      | .err e => (resetList st specs res.2.2.1, .err e)
+      | o => ({ st with rules := setPath st.rules res.1 path, gone := st.gone ++ res.2.1, next := res.2.2.1 }, o)
+
 def nDelete (st : St) (path : List Nat) (i : Int) : St × Outcome :=
   match atPath st.rules path with
   | none => (st, .badOp)
@@ -642,13 +694,13 @@ def nSetText (st : St) (path : List Nat) (kids : List Spec) : St × Outcome :=
 
 /-- `sheet.cssText = text` where the text consists of the statements `specs` (white space between them).
 A DOM exception during the parse restores the old state (`finally`, `:352-357`); otherwise the new list replaces the
-old one, whose objects are not touched (they keep `_parentStyleSheet`), and `_cleanNamespaces` runs (`:359-362`). -/
+old one, whose objects are detached (`_parentStyleSheet = None`), and `_cleanNamespaces` runs. -/
 def setText (st : St) (specs : List Spec) : St × Outcome :=
   match parseTop st.raising { acc := [], nd := [], level := 0, next := st.next } specs with
   | .error e => (st, .err e)
   | .ok p =>
     let c := cleanNamespaces p.acc
-    ({ st with rules := c.1, gone := st.gone ++ st.rules, next := p.next },
+    ({ st with rules := c.1, gone := st.gone ++ st.rules.map Rule.detach, next := p.next },
       match c.2.2 with | some e => .err e | none => .none)
 
 /-- what parsing the serialisation of the sheet gives (`parseString(sheet.cssText)`): a fresh sheet, log-only mode -/
@@ -669,6 +721,10 @@ inductive Op where
   | setText (specs : List Spec)
   | nsSet (p u : Cps)
   | nsDel (p : Cps)
+  /-- `sheet.insertRule(CSSRuleList, index)` -/
+  | insertList (specs : List Spec) (index : Option Int)
+  /-- `container.insertRule(CSSRuleList, index)` -/
+  | nInsertList (path : List Nat) (specs : List Spec) (index : Option Int)
   | nInsert (path : List Nat) (s : Spec) (index : Option Int) (viaStr : Bool)
   | nDelete (path : List Nat) (i : Int)
   | nSetText (path : List Nat) (kids : List Spec)
@@ -684,6 +740,8 @@ def step (st : St) : Op → St × Outcome
   | .setText specs => setText st specs
   | .nsSet p u => nsSet st p u
   | .nsDel p => nsDel st p
+  | .insertList specs i => insertList st specs i
+  | .nInsertList path specs i => nInsertList st path specs i
   | .nInsert path s i v => nInsert st path s i v
   | .nDelete path i => nDelete st path i
   | .nSetText path kids => nSetText st path kids
